@@ -302,7 +302,18 @@ def split_params(s):
     return out
 
 
+_HEAVY = __import__('threading').Lock()
+
+
 def run_job(G, u, gen, bdir, job, tier):
+    # jobs that need most of the machine's memory (mem_gb >= 30) run one at a time: three of them in parallel ran each other out of memory
+    if job.get('mem_gb', 0) >= 30:
+        with _HEAVY:
+            return _run_job(G, u, gen, bdir, job, tier)
+    return _run_job(G, u, gen, bdir, job, tier)
+
+
+def _run_job(G, u, gen, bdir, job, tier):
     jid = job['id']
     jd = os.path.join(bdir, 'jobs', re.sub(r'\W', '_', jid))
     os.makedirs(jd, exist_ok=True)
@@ -606,8 +617,17 @@ def main():
                 if j.get('tier') == 'thorough' and tier != 'thorough':
                     continue
                 work.append((G, u, gen, gb, j))
+        # jobs that need most of the machine's memory (mem_gb >= 30) run after all the others, one at a time
+        work = [w for w in work if w[4].get('mem_gb', 0) < 30] + [w for w in work if w[4].get('mem_gb', 0) >= 30]
         with ThreadPoolExecutor(max_workers=int(os.environ.get('VERIF_JOBS', '16'))) as ex:
-            futs = [ex.submit(run_job, G, u, gen, gb, j, tier) for (G, u, gen, gb, j) in work]
+            light = [w for w in work if w[4].get('mem_gb', 0) < 30]
+            futs = [ex.submit(run_job, G, u, gen, gb, j, tier) for (G, u, gen, gb, j) in light]
+            for f in futs:
+                try:
+                    f.exception()      # wait for the light jobs before the heavy ones start
+                except Exception:
+                    pass
+            futs += [ex.submit(run_job, G, u, gen, gb, j, tier) for (G, u, gen, gb, j) in work[len(light):]]
             for f, w in zip(futs, work):
                 try:
                     r = f.result()
